@@ -858,6 +858,7 @@ type CtxV struct {
 	children []*CtxV
 	values   map[string]Value
 	cancelOn bool // cancellable
+	deadline *Term // own deadline (ns), nil if none
 }
 
 func (m *Machine) ctxBackground() *CtxV {
